@@ -327,6 +327,7 @@ func additive(symbols []pr.IntNamedString, value int) (string, bool) {
 				return symbol(vs.NamedString), true
 			}
 		}
+		return "", false // 0 is representable only by a tuple of weight 0
 	}
 	if len(symbols) == 0 {
 		return "", false
